@@ -79,7 +79,7 @@ def main():
         dst = VERIF / 'seeded' / a.keep_as
         dst.mkdir(parents=True, exist_ok=True)
         for f in sd.iterdir():
-            if f.is_file():
+            if f.is_file() and f.resolve() != (dst / f.name).resolve():
                 shutil.copy(f, dst / f.name)
         (dst / 'meta.json').write_text(json.dumps(meta, indent=1))
     return 0
